@@ -6,6 +6,7 @@ import RscelModel.Driver.C02Spec
 import RscelModel.Driver.SerdeWire
 import RscelModel.Driver.Spans
 import RscelModel.Model.Params
+import RscelModel.Driver.TimeWire
 open Rscel
 
 def showNames (ns : List Str) : String :=
@@ -128,10 +129,8 @@ def handle (line : String) : String :=
       | some (.code c, _) => wfDiag c
       | _ => "bad-request"
     else
-    match SerdeWire.handle cmd args with
-    | some r => r
-    | none =>
-    match Wire.handleValOp cmd args with
+    -- optional command groups, each `String → List String → Option String`
+    match (SerdeWire.handle cmd args <|> Wire.handleTimeOp cmd args <|> Wire.handleValOp cmd args) with
     | some r => r
     | none => "bad-request"
 
